@@ -25,7 +25,7 @@ ASSUMPTIONS = ["Python's re computes the expected stripping (the regex engine is
 BUDGET = {"quick": {"shards": 4, "examples": 300}, "thorough": {"shards": 16, "examples": 4000}}
 
 TRIGGERS = [":keyword", ":param **kwargs:", "KW", ":keyword ", " kw", "k  w", "キーワード", "a.b*c", "(kw)", ":keyword x:", "$"]
-PATTERNS = ["", "", "^[^_]*_", "[^a-z]+", "[^A-Za-z0-9_]+", "\\W", "\\A_", "_\\Z", "(?s).$", "^_", "_$", "^[a-z]{1,3}_", "[0-9]+", "^(in|out)_", "(?i)^arg_", ".*", "^fn_", "a", "_name$", "^\"|\"$"]
+PATTERNS = ["", "", "^\\w+?_", "\\W+$", "(?i)^[a-zé]", "^[^_]*_", "[^a-z]+", "[^A-Za-z0-9_]+", "\\W", "\\A_", "_\\Z", "(?s).$", "^_", "_$", "^[a-z]{1,3}_", "[0-9]+", "^(in|out)_", "(?i)^arg_", ".*", "^fn_", "a", "_name$", "^\"|\"$"]
 
 
 def _doc():
